@@ -1,6 +1,7 @@
 import Scion.Model.TrcUpdate
 import Scion.Proofs.TrcUpdate
 import Scion.Props.C33
+import Scion.Gen.Pki1Trc
 /-!
 # C32 — TRC updates are accepted only with the required votes and signatures
 
@@ -238,6 +239,22 @@ theorem update_needs_predecessor (sis : List Signer) (t : TRC) (hb : t.isBase = 
   · rename_i u hu
     obtain ⟨_, p', hp', _⟩ := validateUpdate_ok hu
     cases hp'
+
+/-- **T3.** `verifyUpdate` validates the update and then hands exactly the new voters, the root
+acknowledgments and the votes to `verifyAll`; `verifyAll` compares the number of distinct
+verified certificates with the number of certificates it was given (the pigeonhole step of
+`sensitive_quorum_distinct`); `ValidateUpdate` makes the ID / flag / vote-count comparisons of
+`checkLink` in this order (regenerated from `/repo` on every run). -/
+theorem gen_update_facts :
+    Gen.Pki1Trc.verifyUpdateCalls =
+      ["ValidateUpdate(predecessor)", "verifyAll(update.NewVoters)",
+       "verifyAll(update.RootAcknowledgments)", "verifyAll(update.Votes)"] ∧
+    Gen.Pki1Trc.verifyAllCountCond = ["len(seen) != len(certs)"] ∧
+    Gen.Pki1Trc.updateConds =
+      ["predecessor == nil", "predecessor.ID.ISD != trc.ID.ISD", "predecessor.ID.Base != trc.ID.Base",
+       "predecessor.ID.Serial+1 != trc.ID.Serial", "predecessor.NoTrustReset != trc.NoTrustReset",
+       "len(trc.Votes) < predecessor.Quorum"] := by
+  refine ⟨by decide, by decide, by decide⟩
 
 /-! ### Non-vacuity -/
 
